@@ -69,7 +69,7 @@ def it_advance_spec(it):
     return ite(bits(it, 2, 0) == 0, 0, (it & 0xE0) | ((it << 1) & 0x1F))
 
 
-def make_unit(iset, cube_name, cube_pred, memarch='PMSA', nregions=1, props=('C18', 'C10', 'C04', 'C05', 'C19', 'C01', 'C02', 'C03', 'C06', 'C07', 'C09', 'C12', 'C14', 'C20')):
+def make_unit(iset, cube_name, cube_pred, memarch='PMSA', nregions=1, props=('C18', 'C10', 'C04', 'C05', 'C19', 'C01', 'C02', 'C03', 'C06', 'C07', 'C08', 'C09', 'C12', 'C13', 'C14', 'C20')):
     m = registry.mods()
     A = m.arm_v6.ArmV6
     Rg = m.registers.Registers
@@ -360,6 +360,9 @@ def make_unit(iset, cube_name, cube_pred, memarch='PMSA', nregions=1, props=('C1
                 st0 = dict(init)
                 st0['mem'] = mem.init
                 st0['oracle.excl_pass'] = excl_pass
+                # where the architecture stores an UNKNOWN value, the value (only) is taken from the implementation
+                wr = [a_ for a_ in mem.accesses if a_[1] == 'W']
+                st0['oracle.unknown_store'] = wr[0][4] if wr and sym.is_intlike(wr[0][4]) else 0
                 exp, s_unpred, s_undef = SS.spec_step(r, st0, instr, 'arm' if iset == 'arm' else 'thumb', oplen, fix=fix)
                 skip = lor(lnot(r.match(instr)), s_unpred, s_undef)
                 named = []
@@ -373,14 +376,34 @@ def make_unit(iset, cube_name, cube_pred, memarch='PMSA', nregions=1, props=('C1
                     else:
                         named.append((k, lor(skip, values_eq(v, exp[k]))))
                 named.append(('mem', lor(skip, sym.SymBool(mem.term == exp['mem']))))
-                # control flow (C04) as an obligation of its own: the final PC and instruction-set state
+                ob = eng.oblige_all('post', '%s: final state == architectural decode+operation (all leaves; frame)' % tag, named)
+                ob.props = fams(r, fam) + [dprop]
+                whole = ob.status == 'proved'
+                # slices of the same comparison that other properties talk about, as obligations of their own (when the whole
+                # comparison is proved they are conjuncts of a proved conjunction and need no solver call):
+                # control flow (C04): the final PC and instruction-set state
                 flow = [n_ for n_ in named if n_[0] == 'R.PC']
                 if sym.is_intlike(final['cpsr']):
                     flow.append(('instruction set (CPSR.J,T)', lor(skip, values_eq(ST.iset(final['cpsr']), ST.iset(exp['cpsr'])))))
-                ob = eng.oblige_all('post.pc', '%s: final PC and instruction set == architectural (branch target / interworking / PC + length)' % tag, flow)
-                ob.props = ['C04'] + fams(r, fam) + [dprop]
-                ob = eng.oblige_all('post', '%s: final state == architectural decode+operation (all leaves; frame)' % tag, named)
-                ob.props = fams(r, fam) + [dprop]
+                slices = [('post.pc', '%s: final PC and instruction set == architectural (branch target / interworking / PC + length)' % tag, flow, ['C04'])]
+                # register banks (C10): copies of registers / SPSRs that the executing mode does not see change only as specified
+                # (an access by explicit mode - SRS, LDM/STM user registers, banked MRS/MSR - reaches exactly the named bank)
+                banks = [(k, lor(visible_from(mode0, k), c_)) for k, c_ in named if hidden_possible(k)]
+                slices.append(('post.banks', '%s: register copies of other modes change exactly as specified' % tag, banks, ['C10']))
+                if iset != 'arm' and sym.is_intlike(final['cpsr']):
+                    # IT state (C08): advanced / retired / loaded exactly as specified; 16-bit instructions in an IT block leave the flags
+                    keep = (unk.get('cpsr', 0) ^ 0xFFFFFFFF) if sym.is_intlike(unk.get('cpsr', 0)) else 0xFFFFFFFF
+                    itc = [('CPSR.IT', lor(skip, values_eq(ST.cpsr_field(final['cpsr'], 'it'), ST.cpsr_field(exp['cpsr'], 'it'))))]
+                    if iset == 'thumb16':
+                        fm = 0xF80F0000
+                        itc.append(('flags inside an IT block', lor(skip, bits(ST.cpsr_field(init['cpsr'], 'it'), 3, 0) == 0,
+                                                                    values_eq(final['cpsr'] & fm & keep, exp['cpsr'] & fm & keep))))
+                    slices.append(('post.it', '%s: IT state after the instruction (and flags of a 16-bit instruction inside an IT block) == architectural' % tag, itc, ['C08']))
+                for kind_, label_, conj_, props_ in slices:
+                    if not conj_:
+                        continue
+                    ob = eng.oblige(kind_, label_, True) if whole else eng.oblige_all(kind_, label_, conj_)
+                    ob.props = props_ + fams(r, fam) + [dprop]
                 ob = eng.oblige('post.unpred', '%s: not executed normally where the architecture says UNDEFINED / takes an exception' % tag,
                                 lor(lnot(r.match(instr)), lnot(s_undef)))
                 ob.props = fams(r, fam) + [dprop]
@@ -404,8 +427,7 @@ def make_unit(iset, cube_name, cube_pred, memarch='PMSA', nregions=1, props=('C1
         # ---- abort clause (C02/C14): a data abort raised by the instruction's own access leaves the registers as
         # they were (no data transferred, no base write-back) and enters the abort handler architecturally
         if rows and events == ['take_data_abort_exception'] and mem.fault_info is not None and not unpred_possible(unpred):
-            fam_ = rows[0].family or fam
-            if fam_ == 'C02':
+            if 'C02' in fams(rows[0], fam):
                 info = mem.fault_info
                 st = dict(init)
                 for nm in ABORT_REGS:
@@ -510,6 +532,34 @@ def row_unpred_undef(r, instr, base):
 
 def unpred_possible(u):
     return u is True
+
+
+def hidden_possible(k):
+    """register-file leaves that some mode does not see: banked copies, SPSRs, ELR_hyp"""
+    if k.startswith('spsr_') or k == 'elr_hyp':
+        return True
+    if not k.startswith('R.'):
+        return False
+    nm = k[2:]
+    return nm.startswith(('SP', 'LR')) or (nm[:2] in ('R8', 'R9') or nm[:3] in ('R10', 'R11', 'R12'))
+
+
+def visible_from(mode, k):
+    """the register-file leaf k is the copy that `mode` sees (as R8-R14 or as its SPSR / ELR)"""
+    by = {'fiq': ST.FIQ, 'irq': ST.IRQ, 'svc': ST.SVC, 'mon': ST.MON, 'abt': ST.ABT, 'hyp': ST.HYP, 'und': ST.UND}
+    if k.startswith('spsr_'):
+        return mode == by[k[5:]]
+    if k == 'elr_hyp':
+        return mode == ST.HYP
+    nm = k[2:]
+    bank = nm[-3:]
+    if nm.startswith('SP'):
+        return mode == by[bank] if bank != 'usr' else land(*[mode != m_ for m_ in by.values()])
+    if nm.startswith('LR'):
+        if bank != 'usr':
+            return mode == by[bank]
+        return land(*[mode != m_ for b_, m_ in by.items() if b_ != 'hyp'])
+    return mode == ST.FIQ if bank == 'fiq' else mode != ST.FIQ
 
 
 def fams(r, fam):
